@@ -134,7 +134,8 @@ for _p, _txt in (('C01', 'every returned block checked against mapping registry,
                  ('C03', 'map/unmap pairing, numUsedPages() deltas per mapping, poison shadow after every call, pool accesses to poisoned bytes reported by ASan')):
     add(_p, level='exploration',
         rule='seeded allocate/free/deallocate/realloc histories on 13 policy configurations (aligned/unaligned map, 5 geometries, poison on/off, 3 mutex types) + all sequences of length 6 on nearly-full tiny slabs: ' + _txt,
-        jobs=[job('slab', 'c01_slab.cpp', args=['--arg', 'prop=' + _p], shards={'quick': 12, 'thorough': 16}, hang_is_violation=True)],
+        jobs=[job('slab', 'c01_slab.cpp', args=['--arg', 'prop=' + _p], shards={'quick': 12, 'thorough': 16}, hang_is_violation=True),
+              job('slab_track_regions', 'c01_slab.cpp', defines=['-DFRG_SLAB_TRACK_REGIONS'], args=['--arg', 'prop=' + _p], tiers=('thorough',), shards={'thorough': 4}, hang_is_violation=True)],
         min_evaluations={'quick': 10000, 'thorough': 100000},
         min_counters={'allocations': 100000, 'frees': 50000, 'reallocs_moved': 1000, 'reallocs_in_place': 1000, 'large_allocations': 1000, 'policy_unmap_calls': 1000, 'exhaustive_histories': 5000},
         assumptions=SLAB_ASSUME)
@@ -214,7 +215,7 @@ add('C05',
     jobs=[job('slab_sched', 'c05_slab_sched.cpp', shards={'quick': 8, 'thorough': 16}),
           job('slab_tsan', 'c05_tsan.cpp', flavour='tsan', shards={'quick': 4, 'thorough': 8})],
     min_evaluations={'quick': 5000, 'thorough': 100000},
-    min_counters={'schedules': 5000, 'dfs_spaces_exhausted': 4, 'reentrant_policy_allocations': 1000, 'schedules_with_concurrent_slab_construction_or_extra_map': 500, 'tsan_allocations': 100000, 'tsan_cross_thread_frees': 1000},
+    min_counters={'schedules': 5000, 'dfs_spaces_exhausted': 4, 'reentrant_policy_allocations': 1000, 'schedules_with_concurrent_slab_construction_or_extra_map': 500, 'tsan_allocations': 100000, 'tsan_cross_thread_frees': 1000, 'tsan_reallocs': 1000},
     assumptions=['the controlled scheduler explores sequentially consistent interleavings at lock operations, hook points and policy callbacks; data races on pool state are observed by ThreadSanitizer in the free-running runs',
                  'blocks are written with plain stores by their owner, so a double hand-out is also a data race'],
     )
